@@ -8,6 +8,7 @@ CONSTANTS
   PWs = {"p1", "p2"}
   PubPWs = {"pub1", "pub2"}
   Names = {"alice"}
+  XNames = {"xacct"}
   ImpIds = {"k1"}
   MaxSync = 0
   Outcomes = {"commit", "rollback"}
